@@ -325,6 +325,7 @@ func main() {
 	// ---- part 1: annotated hex (in-process, real prototest package from the module replace)
 	hexGenerator(r, r.Thorough())
 	hexAcceptor(r, ev.Pick(r, 6, 7))
+	hexLongLines(r)
 
 	// ---- part 2: protodump
 	b, ok := build(r)
